@@ -61,10 +61,11 @@ ONLY = ["group_*"]
 STRATEGIES = ["range", "roundrobin", "sticky"]
 
 # non-vacuity: broken variants of the model and the clause family each one has to violate
-BUGS_QUICK = ["fence_keeps_id_without_budget", "final_commit_one_short", "commit_keeps_stale_coordinator"]
-BUG_EXPECT = {"claim_fail_no_cancel": "ClaimFailEndsSession"}   # default: NoViolation
+BUGS_QUICK = ["fence_keeps_id_without_budget", "final_commit_one_short", "commit_keeps_stale_coordinator", "setup_fail_blocks_release"]
+BUG_EXPECT = {"claim_fail_no_cancel": "ClaimFailEndsSession", "setup_fail_blocks_release": "SetupFailureReturns"}   # default: NoViolation
 BUG_BASE = {"fence_keeps_id_without_budget": "Group.mc.retry.cfg", "final_commit_one_short": "Group.mc.retry.cfg",
-            "claim_fail_no_cancel": "Group.mc.retry.cfg", "commit_keeps_stale_coordinator": "Group.mc.retry.cfg"}   # default: Group.bug.cfg
+            "claim_fail_no_cancel": "Group.mc.retry.cfg", "commit_keeps_stale_coordinator": "Group.mc.retry.cfg",
+            "setup_fail_blocks_release": "Group.mc.retry.cfg"}   # default: Group.bug.cfg
 BUGS_ALL = BUGS_QUICK + ["skip_cleanup", "claim_fail_no_cancel", "keep_member_id", "claim_at_initial", "stale_hb_identity", "skip_setup", "no_final_commit", "cleanup_early", "stale_commit_identity"]
 
 
@@ -290,6 +291,16 @@ def shutdown_scenarios():
     out.append(_scen("sd-coord-down-lookup", [_client("c1", [_sess("drain", 1, 1, ("coord_down_close", "claim"))])], lookupfail=True))
     out.append(_scen("sd-coord-down-lookup-errs", [_client("c1", [_sess("drain", 1, 1, ("coord_down_close", "claim"))])], lookupfail=True,
                      returnerrors=True, auto="fast"))
+    # session set-up fails after join and sync succeeded (initial OffsetFetch refused for good / dropped, or Setup returns an error):
+    # Consume returns the error, the next call works, Close returns - also when Close races with the failing set-up
+    ok = _sess("early", 1, 1)
+    for kind, at in [("ofetch_fail", "sync"), ("ofetch_fail_conn", "sync"), ("setup_error", "setup")]:
+        out.append(_scen("sd-%s" % kind, [_client("c1", [_sess("drain", 1, 1, (kind, at)), ok])]))
+        out.append(_scen("sd-%s-then-close" % kind, [_client("c1", [_sess("drain", 1, 1, (kind, at))])]))
+    for kind, at in [("ofetch_fail_close", "sync"), ("setup_error_close", "setup")]:
+        out.append(_scen("sd-%s" % kind, [_client("c1", [_sess("drain", 1, 1, (kind, at))])]))
+    out.append(_scen("sd-setup_error-two", [_client("c1", [_sess("drain", 1, 1, ("setup_error", "setup")), _sess("drain", 1, 1, ("close", "claim"))]),
+                                            _client("c2", [_sess("drain", 1, 1), _sess("drain", 1, 1, ("close", "claim"))])]))
     # double Close of the group
     out.append(_scen("sd-double-close", [_client("c1", [_sess("drain", 1, 1, ("close", "claim"))])], dclose=True))
     out.append(_scen("sd-double-close-idle", [_client("c1", [_sess("early", 1, 1)])], dclose=True))
